@@ -96,6 +96,20 @@ template <class F> void ipfuture_product(Ctx &ctx, int L, F visit) {
     all_strings(ctx, "v1g.:-%]/", L, [&](const Str &s) { visit("//[" + s); visit("//[" + s + "]"); visit("//[V" + s + "]"); });
 }
 
+// every octet value 0..300 (and the same with a leading zero) in every position of a dotted quad, as a host and inside an IPv6 literal:
+// boundaries are in octet_product, this closes the ranges between them (a case label dropped from a digit switch hits some value)
+template <class F> void octet_sweep(Ctx &ctx, F visit) {
+    uint64_t idx = 0;
+    for (int v = 0; v <= 300; v++) { if (!ctx.mine(idx++) || ctx.expired()) continue; Str n = fmt("%d", v);
+        for (int pos = 0; pos < 4; pos++) { Str q; for (int i = 0; i < 4; i++) { if (i) q += "."; q += i == pos ? n : Str(i == 0 ? "1" : i == 1 ? "22" : i == 2 ? "133" : "4"); }
+            visit("//" + q); visit("//u@" + q + ":8/p"); visit("//[::" + q + "]"); visit("//[1:2:3:4:5:6:" + q + "]"); if (v < 100) { Str z = q; size_t at = 0; for (int i = 0; i < pos; i++) at = z.find('.', at) + 1; z.insert(at, "0"); visit("//" + z); } } }
+}
+// every hexadecimal digit in every position of an IPv6 group, in both cases
+template <class F> void hexgroup_sweep(Ctx &ctx, F visit) {
+    uint64_t idx = 0; const char *HD = "0123456789abcdefABCDEF";
+    for (const char *h = HD; *h; h++) { if (!ctx.mine(idx++) || ctx.expired()) continue;
+        for (int pos = 0; pos < 4; pos++) { Str g = "1234"; g[pos] = *h; visit("//[" + g + "::]"); visit("//[::" + g + "]"); visit("//[1:2:3:" + g + ":5:6:7:8]"); visit("//[" + g.substr(pos) + "::1.2.3.4]"); } }
+}
 template <class F> void octet_product(Ctx &ctx, F visit) {
     static const char *oc[22] = { "0", "9", "10", "99", "100", "199", "200", "249", "250", "255", "256", "260", "300", "00", "01", "1a", "", "19", "20", "25", "26", "29" };
     uint64_t idx = 0;
